@@ -57,10 +57,13 @@ Inductive reach (p : vprob K) (xs : list (list K)) (st0 : vstate K) : vstate K -
 | reach_update st s st' : reach p xs st0 st -> s < length (vp_systems p) ->
     update_v_matrices K minv p s (nth s xs []) (vp_stds p) st = Some st' -> reach p xs st0 st'.
 
-(* full column rank of every coefficient matrix such a solve builds *)
+(* w_offset when the loop of _vnacal_new_solve_simple reaches system s: the equations of the systems before it *)
+Definition woff_of (p : vprob K) (s : nat) : nat := length (concat (firstn s (vp_systems p))).
+(* full column rank of every coefficient matrix such a solve builds (with the w_offset the code uses:
+   for an offset beyond the weight vector every weight read would be the default 0) *)
 Definition full_rank_on (p : vprob K) (xs : list (list K)) (ws : option (list Qc)) (st0 : vstate K) : Prop :=
-  forall st s es woff, reach p xs st0 st -> nth_error (vp_systems p) s = Some es ->
-  injective K (sys_of (build_eqs K ofq p st s ws woff es)) (nth s xs []).
+  forall st s es, reach p xs st0 st -> nth_error (vp_systems p) s = Some es ->
+  injective K (sys_of (build_eqs K ofq p st s ws (woff_of p s) es)) (nth s xs []).
 (* the V update at the truth succeeds: (Tx S + Tm) / (Um - S Ux) of every standard is invertible *)
 Definition v_regular (p : vprob K) (xs : list (list K)) : Prop :=
   forall s sd, s < length (vp_systems p) -> In sd (vp_stds p) ->
@@ -73,4 +76,13 @@ Definition solver_spec (solve : nat -> list (list K) -> list K -> option (list K
      length x = u /\ minimises K N (sys_of (combine A b)) x) /\
   (forall u A b x0, length A = length b -> length x0 = u -> injective K (sys_of (combine A b)) x0 ->
      solve u A b <> None).
+(* the weaker solver premise the fixed-point theorem really uses: on the coefficient matrices of THIS
+   solve (reachable V states, the code's w_offset), a consistent system of full column rank is answered
+   by its solution.  solver_spec for both routines implies it (ExactOverProofs.solver_spec_exact_on). *)
+Variables solve_sq solve_ls : nat -> list (list K) -> list K -> option (list K).
+Definition solver_exact_on (p : vprob K) (xs : list (list K)) (ws : option (list Qc)) (st0 : vstate K) : Prop :=
+  forall st s es x0, reach p xs st0 st -> nth_error (vp_systems p) s = Some es ->
+  let rows := build_eqs K ofq p st s ws (woff_of p s) es in
+  length x0 = vp_unknowns p -> consistent K (sys_of rows) x0 -> injective K (sys_of rows) x0 ->
+  solve_rows K solve_sq solve_ls (vp_unknowns p) rows = Some x0.
 End EO.
